@@ -509,7 +509,9 @@ ProposeCustom(p) ==
 
 ProposeReinit(p) ==
     /\ "reinit" \in Features /\ HasGroup(p)
-    /\ ~\E j \in 1..Len(props) : props[j].kind = "reinit" /\ props[j].by = p /\ props[j].ks = grp[p].ks
+    \* at most one by-reference re-init per epoch: which of two the committer keeps (truncate(1) of the bundle)
+    \* depends on the hash order of its proposal cache
+    /\ ~\E j \in 1..Len(props) : props[j].kind = "reinit" /\ props[j].ks = grp[p].ks
     /\ Propose(p, [kind |-> "reinit", kp |-> 0, target |-> 0], [x |-> 0])
 
 \* Client::external_add_proposal: a party that is not a member asks to be added (sender new_member_proposal);
@@ -1053,7 +1055,7 @@ ObsPropose(kind, arg) ==
     /\ (kind = "custom" => "custom" \in Features /\ arg = 0)
     /\ (kind = "psk" => "psk" \in Features /\ arg \in PskIds)
     /\ (kind = "reinit" => /\ "reinit" \in Features /\ arg = 0
-                           /\ ~\E k \in 1..Len(props) : props[k].kind = "reinit" /\ props[k].by = "observer" /\ props[k].ks = obs.ks)
+                           /\ ~\E k \in 1..Len(props) : props[k].kind = "reinit" /\ props[k].ks = obs.ks)
     /\ NewProp([kind |-> kind, kp |-> IF kind = "add" THEN arg ELSE 0, target |-> IF kind = "rem" THEN arg ELSE 0,
                 by |-> "observer", sender |-> "external", byLeaf |-> NoLeaf, ks |-> obs.ks, epoch |-> obs.epoch, gen |-> 0] @@ extra)
     /\ obs' = [obs EXCEPT !.cache = @ \cup {j}]
